@@ -51,7 +51,8 @@ def batches(draw):
                 meta[jid] = {'nt': txt.count('"y"') >= 2 and txt.count('"m"') >= 2, 'cls': ['module', fmt, 'optimize' if opt else 'plain']}
     for i in range(1):
         rnd = mmgen.DrawRnd(draw)
-        g, goal, rpn, texts = mmgen.make(rnd)
+        extras = draw(st.booleans())   # declarations of #Variable / #ElementVariable / #SetVariable / #Symbol variables and axioms over them
+        g, goal, rpn, texts = mmgen.make(rnd, extras=extras)
         t = texts[draw(st.sampled_from(['all', 'none', 'random']))]
         try:
             refmm.parse_and_verify(t)
@@ -59,7 +60,7 @@ def batches(draw):
             continue
         jid = 'mm%d' % i
         jobs.append({'id': jid, 'kind': 'mm', 'text': t})
-        meta[jid] = {'nt': len(mmgen.tvars(goal)) >= 2, 'cls': ['database', 'vars-%d' % len(mmgen.tvars(goal))]}
+        meta[jid] = {'nt': len(mmgen.tvars(goal)) >= 2, 'cls': ['database', 'vars-%d' % len(mmgen.tvars(goal))] + (['database-with-variable-kinds'] if extras else [])}
     extra_seeds = draw(st.lists(st.integers(8, 5000), min_size=3, max_size=3, unique=True))
     return {'jobs': jobs, 'meta': meta, 'extra_seeds': extra_seeds}
 
